@@ -169,7 +169,7 @@ func registerMore2() {
 		Explanation: "handler.Check, FuncInfo.Wrap and the wrapper they build are executed from source; package reflect is an engine intrinsic over go/types (types are go/types types, a reflect.Value wraps an interpreter value, reflect.New allocates a real cell, Value.Call calls the real interpreted function - see gosym/reflect.go). " +
 			"(1) Check on 9 functions covering the documented signature schemes and 8 values that must be rejected (nil, non-function, no context, wrong first parameter, too many parameters, second result not error, variadic, no result): accepted exactly the documented schemes, FuncInfo fields describe the signature. " +
 			"(2) Wrap for each scheme x SetStrict x AllowArray on symbolic params (absent; object with a token and a symbolic string; with an unknown field; arrays of the right length, too short, too long; wrong field type): the function is called exactly once with the argument encoding/json decodes (after the array-to-field mapping), strict types and SetStrict reject unknown fields, or InvalidParams without a call; result and error pass through unchanged; no panic. " +
-			"(3) the positional field-name rules on a struct with a tagged embedded field, an unexported field and a json:\"-\" field. (4) Request.UnmarshalParams and arrayStub.translate directly.",
+			"(3) the positional field-name rules on a struct with a tagged embedded field, an unexported field, a json:\"-\" field (no slot) and a json:\"-,\" field (named \"-\", a slot). (4) Request.UnmarshalParams and arrayStub.translate directly.",
 		Bounds:      []string{"9 accepted + 8 rejected function shapes (programs are enumerated, params are symbolic)", "struct parameters with a RawMessage and a string field; params arrays of 1..3 elements", "string fields <= 1 symbolic byte"},
 		Outside:     []string{"parameter types beyond structs of RawMessage/string/int fields and *jrpc2.Request (scalars, slices, maps, embedded pointers)", "the real package reflect: the model in gosym/reflect.go stands in for it (Kind, NumIn/In/NumOut/Out, IsVariadic, Elem, Implements, NumField/Field, New, Zero, IsNil, ValueOf, Interface, Elem, Call, StructOf, FuncOf, MakeFunc, PointerTo)"},
 		Assumptions: append([]string{jsonAssumption, "reflect model over go/types (gosym/reflect.go); validated by the native replay of counterexamples (the C15 finding and the seeded change C15_a reproduce natively with the real reflect)", "json.Decoder with DisallowUnknownFields: fails iff an object key matches no field"}, commonAssumptions...),
